@@ -285,6 +285,12 @@ func runIsolated(ctx *core.Ctx, mode string, items []WorkItem, parallel, batch i
 // runBatch runs one batch, restarting the worker after a fatal termination (the item that killed it
 // is recorded and skipped).
 func runBatch(ctx *core.Ctx, mode, dir, tag string, items []WorkItem, profile bool, rep *core.Report) map[int]*ItemResult {
+	return runBatchR(ctx, mode, dir, tag, items, profile, rep, false)
+}
+
+// runBatchR: isRetry marks the re-run of a single item after a first CPU-budget overrun; a second
+// overrun there is final (it is not retried again).
+func runBatchR(ctx *core.Ctx, mode, dir, tag string, items []WorkItem, profile bool, rep *core.Report, isRetry bool) map[int]*ItemResult {
 	out := map[int]*ItemResult{}
 	remaining := items
 	attempt := 0
@@ -385,11 +391,11 @@ func runBatch(ctx *core.Ctx, mode, dir, tag string, items []WorkItem, profile bo
 		r := out[openID]
 		if timedOut {
 			timeouts[openID]++
-			if timeouts[openID] < 2 {
+			if timeouts[openID] < 2 && !isRetry {
 				// first overrun: re-run this item alone before judging
 				delete(out, openID)
 				idx := indexOfItem(remaining, openID)
-				single := runBatch(ctx, mode, dir, fmt.Sprintf("%s-retry%d", tag, openID), remaining[idx:idx+1], profile, rep)
+				single := runBatchR(ctx, mode, dir, fmt.Sprintf("%s-retry%d", tag, openID), remaining[idx:idx+1], profile, rep, true)
 				if sr := single[openID]; sr != nil {
 					allSites = append(allSites, sr.Sites...)
 				}
